@@ -44,6 +44,23 @@ impl RegistryCore {
         let mut collector_id: u64 = 0;
 
         for desc in c.desc() {
+            // The registry's common labels are appended to every sample, so
+            // they must not clash with the labels of the metric itself.
+            if let Some(ref hmap) = self.labels {
+                let clash = desc
+                    .const_label_pairs
+                    .iter()
+                    .map(|lp| lp.name())
+                    .chain(desc.variable_labels.iter().map(|n| n.as_str()))
+                    .find(|n| hmap.contains_key(*n));
+                if let Some(name) = clash {
+                    return Err(Error::Msg(format!(
+                        "label name {} of {:?} duplicates a common label of the registry",
+                        name, desc.fq_name
+                    )));
+                }
+            }
+
             // Is the desc_id unique?
             // (In other words: Is the fqName + constLabel combination unique?)
             if self.desc_ids.contains(&desc.id) {
